@@ -131,15 +131,42 @@ func c12Contexts(c *ctx) {
 	// getSSID: hashes party keys, round number and nonce
 	for _, rel := range []string{"ecdsa/keygen", "ecdsa/signing", "ecdsa/resharing", "eddsa/keygen", "eddsa/signing", "eddsa/resharing"} {
 		fn := c.p.Method(rel, "base", "getSSID")
+		var hs []ssa.CallInstruction
+		inlined := false
 		if fn == nil {
 			if rel == "eddsa/resharing" {
 				continue // no session-bound proofs in this protocol
 			}
-			c.r.Unk(rule, core.Key(rule, rel, "getSSID", "anchor"), "-", "getSSID not found")
-			continue
+			// the helper inlined (or renamed): anchor on the store into the ssid field and the hash its value derives from
+			for _, f := range c.p.FuncsOfPkg(rel) {
+				for _, b := range f.Blocks {
+					for _, in := range b.Instrs {
+						st, isSt := in.(*ssa.Store)
+						if !isSt {
+							continue
+						}
+						if fr := core.AsFieldAddr(st.Addr); fr == nil || fr.Name != "ssid" {
+							continue
+						}
+						w := core.NewDepWalker(core.Outermost(f), false)
+						w.Walk(st.Val)
+						for v := range w.SeenSet() {
+							if call, isC := v.(*ssa.Call); isC && core.CallIs(call, "~/common.SHA512_256i") {
+								fn, inlined = call.Parent(), true
+								hs = append(hs, call)
+							}
+						}
+					}
+				}
+			}
+			if fn == nil {
+				c.r.Unk(rule, core.Key(rule, rel, "getSSID", "anchor"), "-", "getSSID not found")
+				continue
+			}
+		} else {
+			hs = core.CallsTo(fn, "~/common.SHA512_256i")
 		}
-		key := fkey(rule, fn, "ssid-inputs")
-		hs := core.CallsTo(fn, "~/common.SHA512_256i")
+		key := core.Key(rule, rel, "(*base).getSSID", "ssid-inputs")
 		ok := len(hs) == 1
 		why := ""
 		if ok {
@@ -165,8 +192,11 @@ func c12Contexts(c *ctx) {
 				ok = false
 				why = fmt.Sprintf("ssid hash inputs: party keys=%v round number=%v nonce=%v", sawKeys, sawNumber, sawNonce)
 			}
-			// returned ssid is the hash
+			// returned ssid is the hash (by construction when the value stored was traced back to the hash)
 			for _, ret := range core.Returns(fn) {
+				if inlined {
+					break
+				}
 				if core.IsNilConst(core.Strip(ret.Results[0])) {
 					continue
 				}
